@@ -30,6 +30,31 @@ Theorem C08_perm_x86_64_asm : perm_correct x86_64_layout x86_64_segs x86_64_chai
 Proof. exact (backend_sound _ _ _ x86_64_ok). Qed.
 Print Assumptions C08_perm_x86_64_asm.
 
+(* The same kernels against Spec.Perm.perm - the N-level permutation on the 40 canonical big-endian bytes over
+   which every mode-level theorem (C01..C07) is stated.  `view L` maps the backend's memory image to the
+   canonical bytes (Sym/Canon.v), `bits 8` is the bit list of a byte; the bridge (Sym/Bridge.bridge_perm:
+   the word-level round specification = Spec.Perm.round for all words, by bit-level lemmas about N) is proved
+   once.  For every first_round k <= 12 and ANY memory image m that presents the byte string s:
+   the image after the translated kernel presents perm k s. *)
+From AsconV Require Import Sym.Canon Sym.Bridge Obl.KernPermBridge.
+Definition perm_is_spec (L : klayout) (segs : list seg) (chains : list (nat * list nat)) : Prop :=
+  forall k, k <= 12 -> exists idx, In (k, idx) chains /\
+  forall m oo s, widths_of m = mem_widths -> widths_of oo = entry_others (chain_of segs idx) ->
+    length s = 40 -> Forall (fun b => (b < 256)%N) s -> pexec BoolAlg (view L) m = map (bits 8) s ->
+    pexec BoolAlg (view L) (run_chain (chain_of segs idx) (m ++ oo)) = map (bits 8) (Spec.Perm.perm k s).
+Theorem C08_spec_x86_64_asm : perm_is_spec x86_64_layout x86_64_segs x86_64_chains.
+Proof. exact (backend_perm _ _ _ x86_64_ok). Qed.
+Print Assumptions C08_spec_x86_64_asm.
+Theorem C08_spec_c64 : perm_is_spec c64_layout c64_segs c64_chains.
+Proof. exact (backend_perm _ _ _ c64_ok). Qed.
+Print Assumptions C08_spec_c64.
+Theorem C08_spec_c32 : perm_is_spec c32_layout c32_segs c32_chains.
+Proof. exact (backend_perm _ _ _ c32_ok). Qed.
+Print Assumptions C08_spec_c32.
+Theorem C08_spec_c64_direct_xor : perm_is_spec c64dx_layout c64dx_segs c64dx_chains.
+Proof. exact (backend_perm _ _ _ c64dx_ok). Qed.
+Print Assumptions C08_spec_c64_direct_xor.
+
 (* the word-level specification used above agrees with Spec.Perm.perm (the N-level permutation the
    mode-level theorems are stated over) on the library's test vectors: 12 and 8 rounds *)
 Definition bits8 (b : N) : list bool := map (N.testbit b) (map N.of_nat (seq 0 8)).
